@@ -127,6 +127,17 @@ def shards(tier, seed):
 
 
 # ------------------------------------------------------------------ snapshots
+class KW(dict):
+    """Keyword arguments, carried as the last element of an argument list."""
+
+
+def ap(f, a):
+    """f(*a), with a trailing KW unpacked as keywords."""
+    if a and isinstance(a[-1], KW):
+        return f(*a[:-1], **a[-1])
+    return f(*a)
+
+
 def snap(x, depth=0):
     """Value snapshot of an argument / result (hashable, comparable)."""
     if depth > 5:
@@ -435,8 +446,22 @@ def gen_args(rng, qual, sig):
                 "nutation_obliquity", "check_input_date"):
         y, m, d = rng.randrange(-1900, 3900), rng.randrange(1, 13), \
             rng.randrange(1, 29)
-        return rng.choice(([Epoch(y, m, d)], [y, m, d], [(y, m, d)],
-                           [[y, m, d]]))
+        import datetime
+        args = rng.choice(([Epoch(y, m, d)], [y, m, d], [(y, m, d)],
+                           [[y, m, d]], [Epoch(y, m, d)],
+                           [datetime.date(max(1, min(9999, y)), m, d)],
+                           [datetime.datetime(max(1, min(9999, y)), m, d,
+                                              rng.randrange(24),
+                                              rng.randrange(60))]))
+        # the documented keywords of the date forms, with every form
+        r = rng.random()
+        if r < 0.25:
+            args = args + [KW(utc=True)]
+        elif r < 0.4:
+            args = args + [KW(leap_seconds=rng.choice((0.0, 35.0, 10)))]
+        elif r < 0.5:
+            args = args + [KW(utc=False)]
+        return args
     if base in ("planetary_conjunction", "planet_star_conjunction",
                 "planet_stars_in_line"):
         a0, d0 = rng.uniform(20, 300), rng.uniform(-50, 50)
@@ -690,18 +715,18 @@ class Universe(object):
                     args = inst_args(rng, qual, an, make_instance(rng,
                                                                   cname)) \
                         if cname not in ("Sun",) else []
-                    return (lambda a: cls(*a)), args, None, short
+                    return (lambda a: ap(cls, a)), args, None, short
                 inst = make_instance(rng, cname)
                 sig = inspect.signature(f)
                 try:
                     args = inst_args(rng, qual, an, inst)
                 except KeyError:
                     args = gen_args(rng, qual, sig)
-                return (lambda a, _i=inst: getattr(_i, an)(*a)), args, \
+                return (lambda a, _i=inst: ap(getattr(_i, an), a)), args, \
                     inst, short
             sig = inspect.signature(f)
             args = gen_args(rng, qual, sig)
-            return (lambda a: f(*a)), args, None, short
+            return (lambda a: ap(f, a)), args, None, short
         except KeyError:
             self.without_generator.add(qual)
             return None
@@ -762,11 +787,11 @@ class Universe(object):
         # equal arguments -> equal results (fresh deep copies)
         try:
             if inst2 is not None:
-                res2 = getattr(inst2, target[3])(*args2)
+                res2 = ap(getattr(inst2, target[3]), args2)
             elif target[3] == "__init__":
-                res2 = resolve(target)[1](*args2)
+                res2 = ap(resolve(target)[1], args2)
             else:
-                res2 = resolve(target)[0](*args2)
+                res2 = ap(resolve(target)[0], args2)
             mon.check("equal-args-equal-results", snap(res2) == rs,
                       lambda: {"target": qual, "args": args,
                                "first": repr(res)[:300],
@@ -813,11 +838,11 @@ class Universe(object):
         self.calls += 2
         f = resolve(target)[0]
         try:
-            r1 = f(*used)
+            r1 = ap(f, used)
         except Exception as ex1:
             r1 = ("raised", type(ex1).__name__)
         try:
-            r2 = f(*fresh)
+            r2 = ap(f, fresh)
         except Exception as ex2:
             r2 = ("raised", type(ex2).__name__)
         mon.cls("argument-objects-with-history", (qual, snap(fresh)))
@@ -851,10 +876,10 @@ class Universe(object):
             pass
         try:
             if i1c is not None:
-                r2 = getattr(i1c, t1[3])(*a1c)
+                r2 = ap(getattr(i1c, t1[3]), a1c)
             else:
-                r2 = resolve(t1)[0](*a1c) if t1[3] != "__init__" else \
-                    resolve(t1)[1](*a1c)
+                r2 = ap(resolve(t1)[0], a1c) if t1[3] != "__init__" \
+                    else ap(resolve(t1)[1], a1c)
         except Exception as ex:
             mon.dev("history-independent",
                     {"f": t1[0], "g": t2[0], "second_call_raised": repr(ex)})
@@ -873,6 +898,7 @@ class Universe(object):
         if b is None:
             return
         fn, args, inst, short = b
+        args = [a for a in args if not isinstance(a, KW)]
         probes = [None, "abc", 1 + 2j, [1.0]]
         variants = []
         for i in range(len(args)):
